@@ -992,7 +992,9 @@ func (ro *RedisOutput) sendCmdsBatch(replayWait usync.WaitCloser, conn client.Re
 			}
 		}
 
-		if shouldUpdateCP {
+		// lastOffset is negative until the first stream item has been consumed:
+		// an idle tick must not replace a good checkpoint by an undefined one
+		if shouldUpdateCP && lastOffset >= 0 {
 			if ro.cfg.EnableResumeFromBreakPoint {
 				if len(cmdQueue) > 0 {
 					lastCmd := cmdQueue[len(cmdQueue)-1]
